@@ -766,7 +766,13 @@ class Exec:
     def stmt_Try(self, stmt, st):
         if stmt.finalbody:
             raise Unsupported("try/finally")
-        res = self.exec_block(stmt.body, st)
+        # exceptions raised by the element expression of a comprehension inside the body are caught here as well
+        saved_h = getattr(self, "comp_handlers", [])
+        self.comp_handlers = saved_h + [n for h in stmt.handlers for n in self.handler_names(h)]
+        try:
+            res = self.exec_block(stmt.body, st)
+        finally:
+            self.comp_handlers = saved_h
         out = []
         for s, f, v in res:
             if f == Flow.RAISE:
@@ -1955,6 +1961,25 @@ class Exec:
             args, kwargs = self.eval_args(node, st)
             if isinstance(fn.node, ast.Lambda):
                 return self.inline_lambda(fn, args, st)
+            body = [b_ for b_ in fn.node.body if not (isinstance(b_, ast.Expr) and isinstance(b_.value, ast.Constant))]
+            if body and isinstance(body[-1], ast.Return) and body[-1].value is not None and all(
+                    isinstance(b_, ast.Assign) and len(b_.targets) == 1 and isinstance(b_.targets[0], ast.Name) for b_ in body[:-1]):
+                # a straight-line nested function (assignments to fresh locals, then `return e`): evaluated in place, in a scope of its own
+                params = [a.arg for a in fn.node.args.args]
+                if len(params) != len(args) or kwargs:
+                    raise Unsupported(f"call of nested function {fn.name} with keyword / default arguments")
+                saved = st.store
+                st.store = dict(fn.closure) if fn.closure else dict(saved)
+                for k_, v_ in saved.items():
+                    st.store.setdefault(k_, v_)
+                for p_, a_ in zip(params, args):
+                    st.store[p_] = a_
+                try:
+                    for b_ in body[:-1]:
+                        st.store[b_.targets[0].id] = self.eval(b_.value, st)
+                    return self.eval(body[-1].value, st)
+                finally:
+                    st.store = saved
             raise Unsupported(f"call of nested function {fn.name} inside an expression (only at statement level)")
         if tag == "repo":
             mn, fn_ = split_qualname(r[1])
